@@ -88,6 +88,7 @@ pub mod uf;
 mod trrel;
 mod eqrel;
 mod trrel_prov;
+mod trrel_uf_prov;
 
 pub type Runner = fn(&mut dyn Src, &mut Report);
 
@@ -172,6 +173,8 @@ native {
    eqrel_ternary_protocol_le6 => |s, r| { eqrel::protocol3::<6>(s, r) },
    trrel_protocol_le6 => |s, r| { trrel_prov::protocol2::<6>(s, r) },
    trrel_ternary_protocol_le6 => |s, r| { trrel_prov::protocol3::<6>(s, r) },
+   trrel_uf_protocol_le4 => |s, r| { trrel_uf_prov::uf_protocol2::<4>(s, r) },
+   trrel_uf_ternary_protocol_le4 => |s, r| { trrel_uf_prov::uf_protocol3::<4>(s, r) },
    trrel_protocol_le4 => |s, r| { trrel_prov::protocol2::<4>(s, r) },
    trrel_protocol_le5 => |s, r| { trrel_prov::protocol2::<5>(s, r) },
    trrel_ternary_protocol_le3 => |s, r| { trrel_prov::protocol3::<3>(s, r) },
